@@ -156,3 +156,140 @@ def run(chk, rule="R-EVEX-FEATURE-DB-AGREE", floor=300):
                        key="evexfeat|%s|%s" % (name, txt))
     chk.floor(rule + ":shapes", n, floor)
     return n
+
+
+# ------------------------------------------------------------------------------------------------------------------- AVX vs AVX2
+UNK_DEBUG = None
+REGTYPE_OF = {"xmm": "kVec128", "ymm": "kVec256", "zmm": "kVec512", "k": "kMask", "mm": "kX86_Mm"}
+
+
+def _fold_decision(fn, stmt, did, value, leaf_factory):
+    """value of the bool local `did` after the (loop-free) statement `stmt`: compound statements, if statements and assignments of
+    constants to the local; conditions are folded with lib/exprfold.py"""
+    x = fn.e(stmt)
+    if x is None:
+        return value
+    if x["k"] == "s:CompoundStmt":
+        for c in x.get("ch", []):
+            value = _fold_decision(fn, c, did, value, leaf_factory)
+        return value
+    if x["k"] == "s:IfStmt":
+        ch = x.get("ch", [])
+        c = Folder({}, leaf_factory(), width=32).fold(fn, x["cond"])
+        rest = [k for k in ch if k != x["cond"]]
+        if c:
+            return _fold_decision(fn, rest[0], did, value, leaf_factory) if rest else value
+        return _fold_decision(fn, rest[1], did, value, leaf_factory) if len(rest) > 1 else value
+    if x["k"] == "binop" and x["op"] == "=":
+        l = fn.e(fn.strip(x["lhs"]))
+        r = fn.e(fn.strip(x["rhs"]))
+        if l is not None and l.get("did") == did and r is not None and isinstance(r.get("cv"), int):
+            return bool(r["cv"])
+    return value
+
+
+def run_avx2(chk, rule="R-AVX2-FEATURE-DB-AGREE", floor=100):
+    chk.rule(rule, "x86 query_features(): for every mnemonic whose VEX forms are split between AVX and AVX2 in db/isa_x86.json and every operand "
+                   "shape of those forms, the `is_avx2` decision - folded from the source over the shape (vbroadcastss/sd by the kind of the "
+                   "source, everything else by the presence of a ymm register) - is true exactly when only an AVX2 form has that shape")
+    f = chk.facts("asmjit/x86/x86instapi.cpp", funcs=r"asmjit::x86::InstInternal::query_features$", enums=r"asmjit::x86::Inst::Id$|asmjit::RegType$")
+    fns = [g for g in cfg.load_functions(f) if g.file.endswith("x86instapi.cpp")]
+    chk.need(fns, "query_features not found")
+    fn = fns[0]
+    idv = {n[3:].lower(): v for n, v in f["enums"]["asmjit::x86::Inst::Id"]["enumerators"] if n.startswith("kId")}
+    rtv = {n: v for n, v in f["enums"]["asmjit::RegType"]["enumerators"]}
+    decl = None
+    for i, x in fn.ex.items():
+        if x["k"] == "decl" and any(v["name"] == "is_avx2" for v in x["vars"]):
+            decl = (i, [v for v in x["vars"] if v["name"] == "is_avx2"][0])
+    chk.need(decl is not None, "query_features: local is_avx2 not found")
+    par = fn.parent_map()
+    comp = par.get(decl[0])
+    chk.need(comp is not None and fn.e(comp)["k"] == "s:CompoundStmt", "query_features: is_avx2 is not declared in a compound statement")
+    did = decl[1]["did"]
+    init = fn.e(fn.strip(decl[1]["init"])) if decl[1].get("init") is not None else None
+    chk.need(init is not None and isinstance(init.get("cv"), int), "query_features: is_avx2 has no constant initialiser")
+    after = [c for c in fn.e(comp)["ch"] if fn.line_of(c) > fn.line_of(decl[0])]
+    stmts = [c for c in after if fn.e(c)["k"] == "s:IfStmt"]
+    chk.need(stmts, "query_features: no decision follows is_avx2")
+
+    db = x86db.load_db(chk)
+    by_name = {}
+    for e in db:
+        if e.get("prefix") != "VEX" or set(e.get("ext") or ()) & SKIP_EXT:
+            continue
+        by_name.setdefault(e["name"], []).append(e)
+    n = 0
+    for name in sorted(by_name):
+        forms = by_name[name]
+        avx = [e for e in forms if "AVX" in (e.get("ext") or []) and "AVX2" not in e["ext"]]
+        avx2 = [e for e in forms if "AVX2" in (e.get("ext") or [])]
+        if not avx or not avx2 or name not in idv:
+            continue
+        s1 = {shape_key(s) for e in avx for s in shapes(e)}
+        s2 = {shape_key(s) for e in avx2 for s in shapes(e)}
+        seen = set()
+        for e in avx + avx2:
+            for sh in shapes(e):
+                key = shape_key(sh)
+                if key in seen:
+                    continue
+                seen.add(key)
+                expected = key in s2 and key not in s1
+                mask = 0
+                for k, c, w in sh:
+                    if k == "reg" and c in REGTYPE_OF and REGTYPE_OF[c] in rtv:
+                        mask |= 1 << rtv[REGTYPE_OF[c]]
+                    elif k == "mem":
+                        mask |= 1 << rtv["kGp64"]
+                        if str(w).startswith(("vm32x", "vm64x")):
+                            mask |= 1 << rtv["kVec128"]
+                        if str(w).startswith(("vm32y", "vm64y")):
+                            mask |= 1 << rtv["kVec256"]
+
+                def leaf_factory(sh=sh, mask=mask, name=name):
+                    def leaf(text, node):
+                        if node["k"] == "ref" and node.get("name") == "op_count":
+                            return len(sh)
+                        if node["k"] == "ref" and node.get("name") == "inst_id":
+                            return idv[name]
+                        if (node.get("cvn") or node.get("name") or "").startswith("kId") and (node.get("cvn") or node.get("name"))[3:].lower() in idv:
+                            return idv[(node.get("cvn") or node.get("name"))[3:].lower()]
+                        if node["k"] == "member" and node.get("field") == "reg_type_mask":
+                            return mask
+                        if node["k"] in ("call", "mcall") and node.get("cn") == "bit_mask" and node.get("args"):
+                            v_ = 0
+                            for a_ in node["args"]:
+                                ax_ = fn.e(fn.strip(a_))
+                                if ax_ is None or not isinstance(ax_.get("cv"), int):
+                                    raise Unknown()
+                                v_ |= 1 << ax_["cv"]
+                            return v_
+                        if UNK_DEBUG is not None:
+                            UNK_DEBUG.add(text[:60])
+                        if node["k"] == "mcall" and node.get("obj") is not None:
+                            o = fn.e(fn.strip(node["obj"]))
+                            if o is not None and o["k"] == "subscript":
+                                ix = fn.e(fn.strip(o.get("idx", o.get("index"))))
+                                k = ix.get("cv") if ix is not None else None
+                                if isinstance(k, int) and k < len(sh):
+                                    kind = sh[k][0]
+                                    t = {"is_mem": kind == "mem", "is_imm": kind == "imm", "is_reg": kind == "reg"}
+                                    if node.get("cn") in t:
+                                        return int(t[node["cn"]])
+                        raise Unknown()
+                    return leaf
+                unk = False
+                computed = bool(init["cv"])
+                try:
+                    for st in stmts:
+                        computed = _fold_decision(fn, st, did, computed, leaf_factory)
+                except Unknown:
+                    unk = True
+                n += 1
+                txt = ", ".join(w if k == "reg" else (w or k) for k, c, w in sh)
+                chk.ob(rule, "%s|%s" % (name, txt), (computed == expected) and not unk, loc=fn.loc(decl[0]),
+                       detail="`%s %s`: in the database this shape belongs to %s, query_features() decides is_avx2 = %s%s" %
+                              (name, txt, "AVX2 only" if expected else "AVX", computed, " (not foldable)" if unk else ""), key="avx2feat|%s|%s" % (name, txt))
+    chk.floor(rule + ":shapes", n, floor)
+    return n
